@@ -609,3 +609,7 @@ K("S1.contains_point_one_cell", ["C09", "C03"], LINE, "check_contains_point_one_
 B("S2.is_collinear_translated", ["C06", "C09"], LINE, "bounded_is_collinear_translated", "util::is_collinear",
   "true <=> exact cross product zero, for small triangles at any position on the page",
   "all 15,625 triples of the 25 lattice points of one cell x 8 page offsets up to (400, 200) cells", file="util.rs")
+
+B("S4.merge_fragment_spans_fixpoint", ["C09", "C03"], FB, "bounded_merge_fragment_spans_fixpoint", "FragmentBuffer::merge_fragment_spans (abs_fragment_spans + FragmentSpan::merge_recursive)",
+  "the returned list is a fix-point: no earlier fragment merges with a later one (with the symmetric Line::merge: no two lines of the output are collinear and touching)",
+  "all grids 2x4 and 4x2 (390,625 each) and every 7th 3x3 grid (thorough: all 1,953,125) over {space, -, |, +, _}", timeout=1200, timeout_thorough=7200)
